@@ -70,6 +70,7 @@ class State:
         self.memo = {}
         self.shifted = False
         self.sample_outside = 2
+        self.scale = None            # label of the length scale of the case being run (None outside the workload)
 
 
 ST = State()
@@ -114,6 +115,18 @@ def _count_truth(rec, t, ep):
     if ep in HOSTILE_EPS and t.n:
         h = S.hostility(t)
         pn = GEN.pbc_name(t.pbc)
+        if ST.scale is not None:
+            # the clauses lattice / periodic-only / min27 are judged on every row, nearest on the rows inside the guard;
+            # 'image-needed': rows whose answer is not the direct separation (an image search that accepts nothing fails)
+            rec.count(f'rows:{ep}:scale={ST.scale}', t.n)
+            rec.count(f'guard:{ep}:scale={ST.scale}', int(t.guard.sum()))
+            rec.count(f'image-needed:{ep}:scale={ST.scale}', int(h['beaten'].sum()))
+        zc = S.zero_class(t.vects)
+        rec.count(f'zeros:{ep}:{zc}', t.n)
+        naw = int(h['axis_wrap_wrong'].sum())
+        rec.count(f'hostile:{ep}:axis-wrap-wrong:{zc}', naw)
+        if ep in ('dvect', 'dmag') and zc in ('upper-triangular', 'lower-triangular', 'other-zeros'):
+            rec.count(f'hostile:{ep}:axis-wrap-wrong:{zc}:pbc={pn}', naw)
         nb = int(h['short_direct_beaten'].sum())
         rec.count(f'hostile:{ep}:short-direct-beaten', nb)
         rec.count(f'hostile:{ep}:short-direct-beaten:both-inside', int((h['short_direct_beaten'] & t.inside).sum()))
@@ -258,9 +271,15 @@ def call_both(ctx, am, p0, p1, box, pbc, tag):
         err = np.abs(np.linalg.norm(res_, axis=1) - mag_)
         ok = err <= bnd
     rec.count('rows:dvect-vs-dmag', len(mag_))
+    if ST.scale is not None:
+        rec.count(f'rows:dvect-vs-dmag:scale={ST.scale}', len(mag_))
     try:
-        rec.count('hostile:dvect-vs-dmag:short-direct-beaten',
-                  int(S.hostility(_truth(p0, p1, box.vects, box.origin, pbc))['short_direct_beaten'].sum()))
+        t = _truth(p0, p1, box.vects, box.origin, pbc)
+        h = S.hostility(t)
+        rec.count('hostile:dvect-vs-dmag:short-direct-beaten', int(h['short_direct_beaten'].sum()))
+        rec.count('hostile:dvect-vs-dmag:axis-wrap-wrong:' + S.zero_class(t.vects), int(h['axis_wrap_wrong'].sum()))
+        if ST.scale is not None:
+            rec.count(f'image-needed:dvect-vs-dmag:scale={ST.scale}', int(h['beaten'].sum()))
     except S.Mismatch:
         pass
     rec.check(ok.all(), 'length of the separation vector equals the scalar periodic distance', 'dvect-vs-dmag',
@@ -382,16 +401,22 @@ def run_system_forms(ctx, am, cell, box, pbc, pos, i):
                 slice(0, 3), [0, 1])
 
 
-def run_displacement(ctx, am, cell, box, pbc, pos, i, keep=None, pos_keep=None):
+def run_displacement(ctx, am, cell, box, pbc, pos, rnd, keep=None, pos_keep=None):
     """keep (bool mask) / pos_keep: atoms whose final position is the generated partner point itself (pairs placed near
     short lattice vectors of the initial cell), instead of deformation + thermal move + hop."""
     rec, rng = ctx.rec, ctx.rng
     v0, o0 = box.vects, box.origin
     n = len(pos)
-    # orthogonal cells get a pure stretch every other round so that the 'final' reference cell is orthogonal too
-    v1 = GEN.strained(rng, v0, diagonal=bool(cell['ortho'] and (i // GEN.NCOMBO) % 2 == 0))
+    if 'pattern' in cell:
+        # structured-zero cells: every entry rescaled on its own (the final cell keeps the arrangement of exact zeros),
+        # every third round a general strain instead
+        v1 = v0 * (1.0 + rng.uniform(-0.04, 0.04, (3, 3))) if rnd % 3 != 2 else GEN.strained(rng, v0)
+        rec.count('displacement:final-cell-zeros:' + S.zero_class(v1))
+    else:
+        # orthogonal cells get a pure stretch every other round so that the 'final' reference cell is orthogonal too
+        v1 = GEN.strained(rng, v0, diagonal=bool(cell['ortho'] and rnd % 2 == 0))
     o1 = o0 + rng.uniform(-0.05, 0.05, 3) * cell['L']
-    pbc1 = GEN.PBCS[(GEN.PBCS.index(tuple(pbc)) + 1 + (i // GEN.NCOMBO) % 7) % 8]      # always differs from pbc
+    pbc1 = GEN.PBCS[(GEN.PBCS.index(tuple(pbc)) + 1 + rnd % 7) % 8]      # always differs from pbc
     s0 = s1 = None
     # final positions: follow the deformation, move a little, and let some atoms re-enter through the other side
     rel = S.G.rel(pos, v0, o0)
@@ -434,6 +459,96 @@ def run_displacement(ctx, am, cell, box, pbc, pos, i, keep=None, pos_keep=None):
                 'displacement:bad-reference', s0, s1, 'middle')
 
 
+def run_case(ctx, am, i, cell, pbc, shape, oc, scale, rnd, nk, npairs, sample):
+    """One case of either group: the cell through Box, the pairs of all classes through the call shape of the case.
+    nk = number of cell kinds of the group (the fastest digit of the case index)."""
+    rec, rng = ctx.rec, ctx.rng
+    kind = cell['kind']
+    sname = GEN.scale_name(scale)
+    ST.scale = sname
+    box = None
+    with ctx.guard('Box can be built from vectors and origin', 'box:build'):
+        box = am.Box(vects=cell['vects'], origin=cell['origin'])
+    if box is None:
+        return
+    given = cell['vects']
+    # the cell the functions are given is the Box's (its setter zeroes components below 1e-9 max)
+    cell = dict(cell, vects=np.array(box.vects), origin=np.array(box.origin))
+    # (information, not a clause of this property) the Box changed the arrangement of zeros it was given
+    rec.count('info:box-changed-the-zero-pattern', int(not np.array_equal(cell['vects'] == 0.0, given == 0.0)))
+    pname = GEN.pbc_name(pbc)
+    ST.shifted = False
+    pbc_arg = [pbc, list(pbc), np.array(pbc)][i % 3]
+    rec.count('class:cell:' + kind)
+    rec.count('class:pbc:' + pname)
+    rec.count('class:shape:' + shape)
+    rec.count('class:origin:' + oc)
+    rec.count('class:scale:' + sname)
+    rec.count('class:scale:' + sname + ':shape=' + shape)
+    rec.count('class:zeros:' + S.zero_class(cell['vects']))
+    single0 = ['inside', 'face', 'corner', 'outside'][(i + rnd) % 4] if shape in ('one-many', 'many-one') else None
+    n = 8 if shape == 'one-one' else npairs
+    # offset: the pair classes rotate against the cell kind (nk and the number of pair classes are not coprime)
+    rel0, rel1, classes, p0, p1 = GEN.gen_pairs(rng, cell, n, offset=i + i // nk, single0=single0, pbc=pbc)
+    for c in classes:
+        rec.count('class:pair:' + c)
+    if kind in GEN.COMBO_KINDS:
+        cr = GEN.combo_ratio(cell['vects'], pbc)
+        rec.count('class:cell:periodic-combination-shorter-than-every-cell-vector', int(cr < 1.0))
+        if cr < 1.0:
+            rec.count('class:cell:periodic-combination-shorter-than-every-cell-vector:' + kind + ':pbc=' + pname)
+        rec.count('class:cell:lammps-normalised:' + kind, int(S.is_lammps_normalised(cell['vects'])))
+
+    if shape == 'one-one':
+        for k in range(n):
+            call_both(ctx, am, p0[k], p1[k], box, pbc_arg, 'one-one')
+    elif shape == 'one-many':
+        a = p0[0] if i % 2 == 0 else p0[:1]
+        call_both(ctx, am, a, p1, box, pbc_arg, 'one-many')
+    elif shape == 'many-one':
+        a = p0[0] if i % 2 == 1 else p0[:1]
+        call_both(ctx, am, p1, a, box, pbc_arg, 'many-one')
+    elif shape == 'many-many':
+        call_both(ctx, am, p0, p1, box, pbc_arg, 'many-many')
+    elif shape == 'list-tuple':
+        sub = (rnd + i) % 4
+        if sub == 0:
+            call_both(ctx, am, p0.tolist(), p1.tolist(), box, pbc_arg, 'list,list')
+        elif sub == 1:
+            call_both(ctx, am, tuple(map(tuple, p0)), p1.tolist(), box, pbc_arg, 'tuple,list')
+        elif sub == 2:
+            call_both(ctx, am, tuple(p0[0]), [list(r) for r in p1], box, pbc_arg, 'tuple1,list')
+        else:
+            call_both(ctx, am, [tuple(r) for r in p1], list(p0[0]), box, pbc_arg, 'list,list1')
+        rec.count('class:list-tuple:%d' % sub)
+    elif shape == 'layout':
+        name, a, b = layouts(rng, p0, p1, i // nk + rnd)
+        rec.count('class:layout:' + name)
+        fa, fb = fingerprint(np.array(a)), fingerprint(np.array(b))
+        call_both(ctx, am, a, b, box, pbc_arg, 'layout:' + name)
+        rec.check(fingerprint(np.array(a)) == fa and fingerprint(np.array(b)) == fb,
+                  'the position arguments are left unchanged', 'inputs-modified')
+    elif shape == 'system-index':
+        hs = max(6, n // 4)                  # the first hs generated pairs: atoms k and hs + k
+        run_system_forms(ctx, am, cell, box, pbc_arg, np.vstack([p0[:hs], p1[:hs]]), i)
+    elif shape == 'displacement':
+        run_displacement(ctx, am, cell, box, pbc_arg, p0, rnd, keep=np.array([c in GEN.NEAR_SHORT for c in classes]), pos_keep=p1)
+
+    # incompatible lengths are refused, whatever the case class
+    m0, m1 = [(3, 2), (2, 5), (4, 3), (0, 4)][i % 4]
+    fn = am.dvect if (i // 4) % 2 == 0 else am.dmag
+    must_refuse(ctx, fn, 'positions of incompatible lengths are refused with ValueError',
+                ('dvect' if fn is am.dvect else 'dmag') + ':mismatch', p0[:m0], p1[:m1], box, pbc_arg)
+
+    nontrivial = ST.shifted or not any(pbc)
+    rec.case((kind, pname, shape, oc, sname), nontrivial=nontrivial,
+             fp=fingerprint(cell['vects'], cell['origin'], pname, p0, p1))
+    if sample:
+        rec.sample(dict(kind=kind, pattern=cell.get('pattern'), pbc=pname, shape=shape, origin_class=oc, scale=sname,
+                        vects=cell['vects'], origin=cell['origin'], pair_classes=classes[:8], p0=p0[:3], p1=p1[:3]),
+                   group=('sample:zeros:' if 'pattern' in cell else 'sample:') + shape)
+
+
 def run(ctx):
     import atomman as am
     rec = ctx.rec
@@ -442,87 +557,25 @@ def run(ctx):
     asan = ctx.flavour == 'asan'
     rounds = ctx.pick(3, 3 if asan else 24)
     n_cases = GEN.NCOMBO * rounds
+    nz_cases = GEN.NZCOMBO * ctx.pick(2, 2 if asan else 12)
     npairs = ctx.pick(16, 16 if asan else 48)
     ST.sample_outside = 2
 
     for i in ctx.cases('pairs', n_cases):
-        rng = ctx.rng
         kind, pbc, shape, oc, scale, rnd = GEN.stratified(i)
-        cell = GEN.gen_cell(rng, kind, oc, scale, sub=i // GEN.NK, pbc=pbc)
-        box = None
-        with ctx.guard('Box can be built from vectors and origin', 'box:build'):
-            box = am.Box(vects=cell['vects'], origin=cell['origin'])
-        if box is None:
-            continue
-        # the cell the functions are given is the Box's (its setter zeroes components below 1e-9 max)
-        cell = dict(cell, vects=np.array(box.vects), origin=np.array(box.origin))
-        pname = GEN.pbc_name(pbc)
-        ST.shifted = False
-        pbc_arg = [pbc, list(pbc), np.array(pbc)][i % 3]
-        rec.count('class:cell:' + kind)
-        rec.count('class:pbc:' + pname)
-        rec.count('class:shape:' + shape)
-        rec.count('class:origin:' + oc)
-        single0 = ['inside', 'face', 'corner', 'outside'][(i + rnd) % 4] if shape in ('one-many', 'many-one') else None
-        n = 8 if shape == 'one-one' else npairs
-        # offset: the pair classes rotate against the cell kind (NK and the number of pair classes are not coprime)
-        rel0, rel1, classes, p0, p1 = GEN.gen_pairs(rng, cell, n, offset=i + i // GEN.NK, single0=single0, pbc=pbc)
-        for c in classes:
-            rec.count('class:pair:' + c)
-        if kind in GEN.COMBO_KINDS:
-            cr = GEN.combo_ratio(cell['vects'], pbc)
-            rec.count('class:cell:periodic-combination-shorter-than-every-cell-vector', int(cr < 1.0))
-            if cr < 1.0:
-                rec.count('class:cell:periodic-combination-shorter-than-every-cell-vector:' + kind + ':pbc=' + pname)
-            rec.count('class:cell:lammps-normalised:' + kind, int(S.is_lammps_normalised(cell['vects'])))
+        cell = GEN.gen_cell(ctx.rng, kind, oc, scale, sub=i // GEN.NK, pbc=pbc)
+        run_case(ctx, am, i, cell, pbc, shape, oc, scale, rnd, GEN.NK, npairs, i % GEN.NCOMBO in (3, 83, 167, 248, 329, 407, 488, 569))
 
-        if shape == 'one-one':
-            for k in range(n):
-                call_both(ctx, am, p0[k], p1[k], box, pbc_arg, 'one-one')
-        elif shape == 'one-many':
-            a = p0[0] if i % 2 == 0 else p0[:1]
-            call_both(ctx, am, a, p1, box, pbc_arg, 'one-many')
-        elif shape == 'many-one':
-            a = p0[0] if i % 2 == 1 else p0[:1]
-            call_both(ctx, am, p1, a, box, pbc_arg, 'many-one')
-        elif shape == 'many-many':
-            call_both(ctx, am, p0, p1, box, pbc_arg, 'many-many')
-        elif shape == 'list-tuple':
-            sub = (i // GEN.NCOMBO + i) % 4
-            if sub == 0:
-                call_both(ctx, am, p0.tolist(), p1.tolist(), box, pbc_arg, 'list,list')
-            elif sub == 1:
-                call_both(ctx, am, tuple(map(tuple, p0)), p1.tolist(), box, pbc_arg, 'tuple,list')
-            elif sub == 2:
-                call_both(ctx, am, tuple(p0[0]), [list(r) for r in p1], box, pbc_arg, 'tuple1,list')
-            else:
-                call_both(ctx, am, [tuple(r) for r in p1], list(p0[0]), box, pbc_arg, 'list,list1')
-            rec.count('class:list-tuple:%d' % sub)
-        elif shape == 'layout':
-            name, a, b = layouts(rng, p0, p1, i // GEN.NK + rnd)
-            rec.count('class:layout:' + name)
-            fa, fb = fingerprint(np.array(a)), fingerprint(np.array(b))
-            call_both(ctx, am, a, b, box, pbc_arg, 'layout:' + name)
-            rec.check(fingerprint(np.array(a)) == fa and fingerprint(np.array(b)) == fb,
-                      'the position arguments are left unchanged', 'inputs-modified')
-        elif shape == 'system-index':
-            hs = max(6, n // 4)                  # the first hs generated pairs: atoms k and hs + k
-            run_system_forms(ctx, am, cell, box, pbc_arg, np.vstack([p0[:hs], p1[:hs]]), i)
-        elif shape == 'displacement':
-            run_displacement(ctx, am, cell, box, pbc_arg, p0, i, keep=np.array([c in GEN.NEAR_SHORT for c in classes]), pos_keep=p1)
-
-        # incompatible lengths are refused, whatever the case class
-        m0, m1 = [(3, 2), (2, 5), (4, 3), (0, 4)][i % 4]
-        fn = am.dvect if (i // 4) % 2 == 0 else am.dmag
-        must_refuse(ctx, fn, 'positions of incompatible lengths are refused with ValueError',
-                    ('dvect' if fn is am.dvect else 'dmag') + ':mismatch', p0[:m0], p1[:m1], box, pbc_arg)
-
-        nontrivial = ST.shifted or not any(pbc)
-        rec.case((kind, pname, shape, oc, scale), nontrivial=nontrivial,
-                 fp=fingerprint(cell['vects'], cell['origin'], pname, p0, p1))
-        if i % GEN.NCOMBO in (3, 83, 167, 248, 329, 407, 488, 569):
-            rec.sample(dict(kind=kind, pbc=pname, shape=shape, origin_class=oc, vects=cell['vects'], origin=cell['origin'],
-                            pair_classes=classes[:8], p0=p0[:3], p1=p1[:3]), group='sample:' + shape)
+    # second group: cells with structured zero patterns (upper / lower triangular, diagonal, permuted axes, blocks,
+    # single exact zeros) x 8 periodicity settings x 8 call shapes, scales rotating as above
+    for i in ctx.cases('zeros', nz_cases):
+        kind, pbc, shape, oc, scale, rnd, m = GEN.stratified_z(i)
+        cell = GEN.gen_zcell(ctx.rng, kind, oc, scale, m)
+        rec.count('class:zpattern:' + cell['pattern'])
+        rec.count('class:zcell:' + kind + ':pbc=' + GEN.pbc_name(pbc))
+        rec.count('class:zcell:' + kind + ':shape=' + shape)
+        run_case(ctx, am, i, cell, pbc, shape, oc, scale, rnd, GEN.NZ, npairs, i % GEN.NZCOMBO in (5, 70, 139, 204, 269, 334, 399, 464))
+    ST.scale = None
 
     for k, v_ in monitor.calls.items():
         if isinstance(v_, int):
